@@ -182,5 +182,6 @@ def run(ck):
             ck.ob("DEFUSE", f.path, "bounds-and-commitment#%d" % n, ("arg", 5) in oa[4] and ("arg", 6) in oa[5] and ("arg", 7) in oa[6] and ("arg", 8) in oa[7],
                   "verify_in_range receives (lower, upper, commitment, proof) in that order", f.loc(bi))
 
-    narrowing_len_sweep(ck, crate("rs", "concordium_base"), re.compile(r"concordium_base::(id::id_verifier|web3id)"), re.compile(r"(verify|verifier|validate|check)[a-z_0-9]*(::\\{closure#\\d+\\})*$"))
-    eq_polarity_sweep(ck, crate("rs", "concordium_base"), re.compile(r"concordium_base::(id::id_verifier|id::identity_attributes_credentials|web3id)"), re.compile(r"(verify|verifier|validate|check)[a-z_0-9]*(::\\{closure#\\d+\\})*$"))
+    narrowing_len_sweep(ck, crate("rs", "concordium_base"), re.compile(r"concordium_base::(id::id_verifier|web3id)"), re.compile(r"(verify|verifier|validate|check)[a-z_0-9]*(::\{closure#\d+\})*$"))
+    eq_polarity_sweep(ck, crate("rs", "concordium_base"), re.compile(r"concordium_base::(id::id_verifier|id::identity_attributes_credentials|web3id)"), re.compile(r"(verify|verifier|validate|check)[a-z_0-9]*(::\{closure#\d+\})*$"))
+    rejecting_checks_floor(ck, crate("rs", "concordium_base"), re.compile(r"concordium_base::(id::id_verifier|id::identity_attributes_credentials|web3id)"), re.compile(r"(verify|verifier|validate|check|extract_commit_message)[a-z_0-9]*(::\{closure#\d+\})*$"), "C18")
